@@ -52,18 +52,17 @@ func (l *c10Loop) run(buf []byte, n int) (*Message, error) {
 	l.u.msgParseChannel <- SizedByteArray{b: sb, n: len(c10Sentinel), msgHandler: h}
 	var got *Message
 	for {
-		select {
-		case m := <-l.out:
-			if id, _ := m.GetCallID(); id == "verif-sentinel" && m.request != nil && m.request.requestURI.String() == "sip:sentinel@verif.invalid" {
-				return got, nil
-			}
-			if got != nil {
-				return nil, fmt.Errorf("two messages delivered for one datagram")
-			}
-			got = m
-		case <-time.After(20 * time.Second):
+		m, ok := patientRecv(l.out, 20*time.Second)
+		if !ok {
 			return nil, fmt.Errorf("parse loop did not deliver the sentinel within 20 s (wedged or dead)")
 		}
+		if id, _ := m.GetCallID(); id == "verif-sentinel" && m.request != nil && m.request.requestURI.String() == "sip:sentinel@verif.invalid" {
+			return got, nil
+		}
+		if got != nil {
+			return nil, fmt.Errorf("two messages delivered for one datagram")
+		}
+		got = m
 	}
 }
 
@@ -99,12 +98,10 @@ func (l *c10Loop) runSeq(datagrams [][]byte) ([]*Message, error) {
 		copy(sb, c10Sentinel)
 		l.u.msgParseChannel <- SizedByteArray{b: sb, n: len(c10Sentinel), msgHandler: h}
 	}()
-	select {
-	case <-done:
-		return got, nil
-	case <-time.After(20 * time.Second):
+	if _, ok := patientRecv(done, 20*time.Second); !ok {
 		return nil, fmt.Errorf("parse loop did not deliver the sentinel within 20 s (wedged or dead)")
 	}
+	return got, nil
 }
 
 func c10Clean(d []byte) *Message {
